@@ -13,8 +13,8 @@ PROP="$1"
 bin/sonicvc check --property "$PROP" --tier thorough
 rc=$?
 nn=$(echo "$PROP" | tr 'C' 'c')
-pkgdir() { case "$1" in sonic) echo . ;; websocket) echo codec/websocket ;; ipv4) echo net/ipv4 ;; frame) echo codec/frame ;; *) echo . ;; esac; }
-for f in scenarios/${nn}_*_test.go; do
+pkgdir() { case "$1" in sonic) echo . ;; websocket) echo codec/websocket ;; ipv4) echo net/ipv4 ;; multicast) echo multicast ;; frame) echo codec/frame ;; *) echo . ;; esac; }
+for f in scenarios/${nn}_*_test.go scenarios/${nn}m_*_test.go; do
   [ -f "$f" ] || continue
   case "$f" in *helper_test.go) continue ;; esac
   pk=$(grep -m1 '^package' "$f" | awk '{print $2}')
